@@ -325,7 +325,10 @@ PROPS['C14'] = {
     'assumptions': ["concurrent external modification under --mmap is outside the claim (documented caveat of the tool)"],
 }
 PROPS['C09'] = {
-    'theorems': ['RQ.Abs.C09_applyRange_append', 'RQ.Abs.C09_failed_is_prefix', 'RQ.Abs.applyRange_success_no_rej', 'RQ.Abs.C20_series'],
+    'theorems': ['RQ.Abs.C09_applyRange_append', 'RQ.Abs.C09_failed_is_prefix', 'RQ.Abs.applyRange_success_no_rej', 'RQ.Abs.C20_series',
+                 'RQ.Compose.C09_oracle_composes', 'RQ.Compose.C09_refused_together', 'RQ.Compose.C09_exit_composes',
+                 'RQ.Compose.C09_success_iff', 'RQ.Compose.C09_failing_first_push', 'RQ.Compose.C09_plan_composes',
+                 'RQ.Compose.C09_pushSpec_composes', 'RQ.Compose.C09_hash_name_roundtrip', 'RQ.Compose.C09_disk_composes_of_bridge'],
     'verdict': 'SPEC',
     'jobs': push_jobs(['inv=4', 'patches=5'], ['inv=4', 'patches=6']),
     'nontrivial': lambda l: l.split('|=>|')[-1].count('exit=') > 1,
